@@ -3,6 +3,8 @@
 import glob, os, sys
 sys.path.insert(0, '/verif')
 os.environ['VX_LOCK_WRITE'] = '1'
+FINAL = '/verif/contracts/structure.lock.json'
+os.environ['VX_LOCK_PATH'] = FINAL + '.new'     # written aside and moved into place at the end (a check running meanwhile sees the old lock)
 from vx.assemble import Assembly, LOCK_PATH
 if os.path.exists(LOCK_PATH): os.unlink(LOCK_PATH)
 for t in sorted(glob.glob('/verif/contracts/C*.rs.tmpl')):
@@ -10,4 +12,5 @@ for t in sorted(glob.glob('/verif/contracts/C*.rs.tmpl')):
         a = Assembly(os.path.basename(t)[:3], os.environ.get('VERIF_REPO', '/repo'), tier)
         a.process(t)
 import json
-print(len(json.load(open(LOCK_PATH))), 'functions locked')
+os.replace(LOCK_PATH, FINAL)
+print(len(json.load(open(FINAL))), 'functions locked')
